@@ -43,6 +43,7 @@ import PS.Proofs.TtcfgCleanLang
 import PS.Proofs.TtcfgBuildTerm
 import PS.Proofs.TtcfgCountS
 import PS.Proofs.TtcfgNoRepair
+import PS.Proofs.TtcfgCleanFirst
 namespace PS.T
 open PS PS.G
 
@@ -823,5 +824,38 @@ theorem C13_clean_removes_only_dead {S T : Type} [DecidableEq S] [DecidableEq T]
       (∀ rule, AList.contains rule nr = true → inRules G rule = true) := by
   obtain ⟨nr, e, hinv⟩ := clean_result G G' hU fuel h
   exact ⟨nr, e, hinv.reach, hinv.kept, hinv.sub⟩
+
+/-- **what `clean()` guarantees about its result**: the table returned is the original one
+    restricted to a set of marks (kept symbols per kept non-terminal) such that at EVERY
+    configuration (non-terminal, pending stack) that the machine of the kept rules reaches from the
+    start symbol, if the non-terminal is kept then
+      (1) its kept row is not empty, and
+      (2) every kept rule that takes arguments has the non-terminal of its FIRST argument kept,
+          provided it was a non-terminal of the original table.
+    So a derivation can always be continued downwards along first arguments to a leaf; it can get
+    stuck only after a complete sub-term, at the non-terminal of a LATER argument - which is
+    exactly finding C13-F5, and `finding_C13_F5_no_repair` shows that this cannot be avoided by
+    removing rules. -/
+theorem C13_clean_first {S T : Type} [DecidableEq S] [DecidableEq T] (G G' : TT S T) (hU : noUnknownKey G = true)
+    (fuel : Nat) (h : clean G fuel = .ok G') :
+    ∃ nr : Marks S T, G' = restrict G nr ∧
+      ∀ c, VSteps G nr (G.start, []) c → ∀ l, AList.lookup c.1 nr = some l →
+        l ≠ [] ∧
+        ∀ P ∈ l, ∀ (a : Ty × S) (as : List (Ty × S)) (st : T), G.rule? c.1 P = some (a :: as, st) →
+          inRules G (a.1, (a.2, st)) = true → AList.contains (a.1, (a.2, st)) nr = true := by
+  obtain ⟨nr, e, _, hg⟩ := clean_first G G' hU fuel h
+  refine ⟨nr, e, ?_⟩
+  intro c hc l hl
+  exact ⟨((hg c hc) l hl).1, fun P hP a as st hr hin => goodC_first G nr c (hg c hc) l hl P hP a as st hr hin⟩
+
+open Ex in
+/-- non-vacuity: `clean` returns on the saturation table of the witness of C13-F5 and keeps the
+    rule `f` (its first argument `a` is inhabited) although its second argument is not -/
+example : (match saturationTable (sizeBuilder unin 2 4 true) unin.prims c true 1000 with
+    | some G0 => noUnknownKey G0 && (match clean G0 1000 with
+        | .ok G' => (G'.rule? (c, ([], (0, 0))) f).isSome && AList.contains ((a, ([(f, 0)], (1, 2))) : NT Ctx (Nat × Nat)) G'.rules &&
+                    !(AList.contains ((b, ([(f, 1)], (2, 1))) : NT Ctx (Nat × Nat)) G'.rules)
+        | _ => false)
+    | none => false) = true := by decide +kernel
 
 end PS.T
